@@ -3,6 +3,8 @@
 package verifhooks
 
 import (
+	"reflect"
+	"unsafe"
 	"fmt"
 	"strings"
 
@@ -23,6 +25,25 @@ func ResetCodecCaches() {
 	jitdec.VerifResetCache()
 	optdec.VerifResetCache()
 	resolver.VerifResetCache()
+}
+
+// CacheState is a snapshot of every per-type program cache and of the struct layout cache.
+type CacheState struct {
+	enc, jd, od unsafe.Pointer
+	res         map[reflect.Type][]resolver.FieldMeta
+}
+
+// SnapshotCodecCaches / RestoreCodecCaches: the program caches publish immutable maps, so the
+// snapshot is three pointers plus a copy of the (small) layout map.
+func SnapshotCodecCaches() *CacheState {
+	return &CacheState{vars.VerifCache().VerifSnapshot(), jitdec.VerifCache().VerifSnapshot(), optdec.VerifCache().VerifSnapshot(), resolver.VerifSnapshot()}
+}
+
+func RestoreCodecCaches(s *CacheState) {
+	vars.VerifCache().VerifRestore(s.enc)
+	jitdec.VerifCache().VerifRestore(s.jd)
+	optdec.VerifCache().VerifRestore(s.od)
+	resolver.VerifRestore(s.res)
 }
 
 // CacheDump lists the types cached per cache.
